@@ -128,15 +128,17 @@ def to_xml(d: dict, layout: str, form: str, comments: bool = False) -> str:
             return n['n']
         return 't:' + n['n'] if layout in ('prefixed', 'both') else n['n']
 
-    def ser(n: dict, is_root: bool) -> str:
+    def ser(n: dict, is_root: bool, depth: int = 0) -> str:
         tag = name(n, is_root)
         attrs = ''.join(f' {k}="{v}"' for k, v in n['a'].items())
+        if depth == 1 and form == 'unqualified' and layout == 'default':
+            attrs = ' xmlns=""' + attrs          # local elements are in no namespace
         if is_root:
             if layout in ('prefixed', 'both'):
                 attrs = f' xmlns:t="{TNS}"' + attrs
             if layout in ('default', 'both'):
                 attrs = f' xmlns="{TNS}"' + attrs
-        inner = (n['t'] or '') + ''.join(('<!--c-->' if comments else '') + ser(c, False) for c in n['c'])
+        inner = (n['t'] or '') + ''.join(('<!--c-->' if comments else '') + ser(c, False, depth + 1) for c in n['c'])
         return f'<{tag}{attrs}>{inner}</{tag}>'
     return ser(d, True)
 
@@ -277,7 +279,20 @@ def rendered_tree(e, ns: dict) -> dict:
 
 
 def known_match(case: dict, detail: dict) -> Optional[str]:
+    """C19-F1: a step for an element in no namespace is written as a bare local name while the error's
+    namespace map binds the empty prefix, so a reader takes it into the default namespace."""
+    if detail.get('kind') == 'path' and (detail.get('namespaces') or {}).get('') and detail.get('nons_step') \
+            and not detail.get('selected'):
+        return 'C19-F1'
     return None
+
+
+def load_local_findings() -> list:
+    from harness.core import VERIF
+    p = VERIF / 'notes' / 'findings' / 'C19.json'
+    if not p.exists():
+        return []
+    return [e for e in json.loads(p.read_text()).get('findings', []) if e.get('property') == 'C19']
 
 
 def run_case(ctx: Ctx, case: dict, xml: str, form: str, parser: str, damaged: Optional[tuple],
@@ -314,10 +329,18 @@ def run_case(ctx: Ctx, case: dict, xml: str, form: str, parser: str, damaged: Op
         ns = dict(e.namespaces or {})
         sel = xpath_select(root, path, ns) if path else None
         if sel is None or len(sel) != 1 or sel[0] is not e.elem:
-            ctx.failure('error path does not select exactly the element the error is about', case,
-                        {'path': path, 'namespaces': ns, 'selected': None if sel is None else [position_of(root, x) for x in sel],
-                         'element_position': list(pos), 'reason': str(e.reason)[:120]})
-            return
+            chain = [at_elem(root, pos[:k]) for k in range(1, len(pos) + 1)]
+            detail = {'kind': 'path', 'path': path, 'namespaces': ns,
+                      'selected': None if sel is None else [position_of(root, x) for x in sel],
+                      'nons_step': any(x.tag[:1] != '{' for x in chain),
+                      'element_position': list(pos), 'reason': str(e.reason)[:120]}
+            fid = known_match(case, detail)
+            if fid:
+                ctx.known_hit(fid)
+                ctx.count('known:' + fid)
+            else:
+                ctx.failure('error path does not select exactly the element the error is about', case, detail)
+                return
         located.append(pos)
         positions.append((list(pos), path, ns))
         parent = at_elem(root, pos[:-1]) if pos else None
@@ -370,7 +393,7 @@ def explore(ctx: Ctx, drv: Optional[Driver]) -> None:
         size = rng.choice([0, 1, 1, 2])
         doc = gen_valid(rng, size)
         form = 'qualified' if di % 3 else 'unqualified'
-        layout = layouts[di % 3] if form == 'qualified' else 'prefixed'
+        layout = layouts[di % 3] if form == 'qualified' else ('default' if di % 2 else 'prefixed')
         comments = rng.random() < 0.3
         nn = list(nodes(doc))
         ctx.count(f'document nodes:{len(nn) // 10 * 10}+')
@@ -424,9 +447,43 @@ def lazy_report(ctx: Ctx) -> None:
                                'note': 'reported only; lazy resources prune the tree, positions may differ'}
 
 
+def renders(ctx: Ctx, drv: Optional[Driver]) -> None:
+    """get_prefixed_qname on random maps against the model; a rendered name must read back to the tag"""
+    from xmlschema.utils.qnames import get_prefixed_qname
+    rng = ctx.rng
+    reqs, pend = [], []
+    for _ in range(ctx.pick(1500, 15000)):
+        ns: dict = {}
+        for _ in range(rng.choice([0, 1, 2, 3, 4])):
+            ns[rng.choice(['', 't', 'p', 'q'])] = rng.choice(['urn:t', 'urn:a', 'urn:b'])
+        q = [rng.choice(['', 'urn:t', 'urn:a', 'urn:z']), rng.choice(['x', 'y'])]
+        tag = '{%s}%s' % tuple(q) if q[0] else q[1]
+        real = get_prefixed_qname(tag, ns)
+        case = {'render': [[k, v] for k, v in ns.items()], 'q': q}
+        ctx.case(case, bool(ns) and bool(q[0]), tag='render')
+        back = expand(real, ns)
+        if back != tag:
+            detail = {'kind': 'path', 'namespaces': ns, 'nons_step': not q[0], 'selected': [], 'rendered': real, 'reads': back}
+            fid = known_match(case, detail)
+            if fid:
+                ctx.known_hit(fid)
+                ctx.count('known:' + fid + ' (render)')
+            else:
+                ctx.failure('a rendered step name does not read back to the tag', case, detail)
+        reqs.append(case)
+        pend.append((case, real))
+    if drv is not None:
+        for (case, real), m in zip(pend, drv.query(reqs)):
+            ctx.traces += 1
+            if m.get('name') != real:
+                ctx.mismatch('get_prefixed_qname vs model renderName', case, real, m.get('name'))
+
+
 def run(ctx: Ctx, driver_ok: bool) -> None:
     drv = Driver('drv_c19') if driver_ok else None
+    ctx.known = ctx.known + load_local_findings()
     explore(ctx, drv)
+    renders(ctx, drv)
     lazy_report(ctx)
     ctx.extra['explanation'] = ('every fault of the catalogue at every node (documents <= 40 nodes exhaustively, 40 seeded '
                                 'nodes beyond), ElementTree and lxml')
